@@ -172,7 +172,10 @@ class VTS:
                 total = sum(hi - lo + 1 for _, hi, lo, _ in items); val = self.assign_val(total, rhs); off = total
                 for n, hi, lo, whole in items:
                     w = hi - lo + 1; off -= w; piece = z3.Extract(off + w - 1, off, val)
-                    if whole: assert n not in self.comb_eq, f"{n} driven twice"; self.comb_eq[n] = piece
+                    if whole:
+                        # the per-target sim printer repeats an `assign {a, b} = e;` once per target: identical drivers of one net are one driver
+                        assert n not in self.comb_eq or z3.simplify(self.comb_eq[n]).eq(z3.simplify(piece)), f"{n} driven twice (by different expressions)"
+                        self.comb_eq[n] = piece
                     else: partial.setdefault(n, []).append((hi, lo, piece))
                 continue
             if lhs[0] == "sel" and lhs[1][0] == "id":
